@@ -21,6 +21,7 @@ import (
 	tikverr "github.com/tikv/client-go/v2/error"
 	"github.com/tikv/client-go/v2/internal/client"
 	"github.com/tikv/client-go/v2/kv"
+	"github.com/tikv/client-go/v2/oracle"
 	"github.com/tikv/client-go/v2/tikv"
 	"github.com/tikv/client-go/v2/txnkv/transaction"
 	pd "github.com/tikv/pd/client"
@@ -73,8 +74,17 @@ func txnAlphabet() []rop {
 	a = append(a, rop{Kind: "riter", S: "", E: ""}, rop{Kind: "riter", S: "c", E: ""}, rop{Kind: "riter", S: "", E: "b"})
 	a = append(a, rop{Kind: "set2", Keys: []int{0, 2}})
 	a = append(a, rop{Kind: "lockread", Keys: []int{1}})
+	// crashed writers: the locks they leave are met by the LATER letters of the
+	// sequence (and by the closing full scans). BatchGet and Scan answers report
+	// such a lock at pair level: a KvPair with an empty key and only an Error.
+	// crash2pc: prewrite a,b,c (primary a), commit the primary only -> readers must roll forward.
+	// crashpw : prewrite b,c (primary b), nothing committed       -> readers must roll back.
+	a = append(a, rop{Kind: "crash2pc", Keys: []int{0, 1, 2}})
+	a = append(a, rop{Kind: "crashpw", Keys: []int{1, 2}})
 	return a
 }
+
+func isCrashOp(o rop) bool { return o.Kind == "crash2pc" || o.Kind == "crashpw" }
 
 func txnApplyRaw(s *tikv.KVStore, o rop, tag string, step int) (res string) {
 	defer func() {
@@ -159,6 +169,39 @@ func txnApplyRaw(s *tikv.KVStore, o rop, tag string, step int) (res string) {
 			res = sb.String()
 		}
 		txn.Rollback()
+	case "crash2pc", "crashpw":
+		for _, i := range o.Keys {
+			if err = txn.Set(key(i), val(i)); err != nil {
+				break
+			}
+		}
+		if err != nil {
+			break
+		}
+		var c transaction.CommitterProbe
+		c, err = transaction.TxnProbe{KVTxn: txn}.NewCommitter(1)
+		if err != nil {
+			break
+		}
+		c.SetPrimaryKey(key(o.Keys[0]))
+		c.SetLockTTL(1) // the writer is dead: its locks expire at once
+		if err = c.PrewriteAllMutations(ctx); err != nil {
+			break
+		}
+		if o.Kind == "crash2pc" {
+			var ts uint64
+			ts, err = s.GetOracle().GetTimestamp(ctx, &oracle.Option{TxnScope: oracle.GlobalTxnScope})
+			if err != nil {
+				break
+			}
+			c.SetCommitTS(ts)
+			if err = c.CommitMutations(ctx); err != nil { // primary only
+				break
+			}
+		}
+		c.CloseTTLManager()
+		time.Sleep(3 * time.Millisecond)
+		res = "ok"
 	case "lockread":
 		// leave an expired prewrite lock, then read through it
 		k := key(o.Keys[0])
@@ -278,7 +321,17 @@ func runTxnDifferential(depth int) map[string]any {
 			}
 			defer putWorld("txn-shared", w)
 			sa, sb, sv := w.txn[0], w.txn[1], w.txn[2]
-			check := func(who, tag, got, want string, o rop) {
+			// crashed: a crashed writer of this client's own sequence precedes step j, so the
+			// operation may meet the locks it left (named in the violation key)
+			crashed := func(seq []int, j int) string {
+				for _, v := range seq[:j] {
+					if isCrashOp(alpha[v]) {
+						return ":after-crashed-writer"
+					}
+				}
+				return ""
+			}
+			check := func(who, tag, got, want string, o rop, suffix string) {
 				nEvals.Add(1)
 				distinctRes.Store(normalise(got, tag), true)
 				if strings.Contains(got, "PANIC:") {
@@ -295,32 +348,32 @@ func runTxnDifferential(depth int) map[string]any {
 				if normalise(got, tag) != want {
 					diffViolCount.Add(1)
 					w.dirty.Store(true)
-					key := "difftxn:" + who + ":" + opKindTxn(o)
+					key := "difftxn:" + who + ":" + opKindTxn(o) + suffix
 					if seesForeign(got, tag) {
-						key = "difftxn:isolation:" + who + ":" + opKindTxn(o)
+						key = "difftxn:isolation:" + who + ":" + opKindTxn(o) + suffix
 					}
 					viol(key, fmt.Sprintf("%s %v returned %s; an isolated API v1 store gives %s", who, o, got, want), replay)
 				}
 			}
 			for j := 0; j < d; j++ {
-				check("keyspaceA", "A", txnApply(sa, alpha[seqA[j]], "A", j), refA[j], alpha[seqA[j]])
-				check("keyspaceB", "B", txnApply(sb, alpha[seqB[j]], "B", j), refB[j], alpha[seqB[j]])
+				check("keyspaceA", "A", txnApply(sa, alpha[seqA[j]], "A", j), refA[j], alpha[seqA[j]], crashed(seqA, j))
+				check("keyspaceB", "B", txnApply(sb, alpha[seqB[j]], "B", j), refB[j], alpha[seqB[j]], crashed(seqB, j))
 				// the API v1 store shares the cluster but only ever uses bounded ranges (its
 				// unbounded scans legitimately cover the keyspaces): map open ends to "d"
 				ov := alpha[seqV[j]]
 				got := txnApply(sv, boundV1(ov), "V", j)
-				check("v1-shared", "V", got, refV[j], ov)
+				check("v1-shared", "V", got, refV[j], ov, crashed(seqV, j))
 				opsRun.Add(3)
 				if diffAbort.Load() {
 					return
 				}
 			}
 			full, rfull := rop{Kind: "iter"}, rop{Kind: "riter"}
-			check("keyspaceA", "A", txnApply(sa, full, "A", 99), refA[d], full)
-			check("keyspaceB", "B", txnApply(sb, full, "B", 99), refB[d], full)
-			check("keyspaceA", "A", txnApply(sa, rfull, "A", 99), refA[d+1], rfull)
-			check("keyspaceB", "B", txnApply(sb, rfull, "B", 99), refB[d+1], rfull)
-			check("v1-shared", "V", txnApply(sv, boundV1(full), "V", 99), refV[d], full)
+			check("keyspaceA", "A", txnApply(sa, full, "A", 99), refA[d], full, crashed(seqA, d))
+			check("keyspaceB", "B", txnApply(sb, full, "B", 99), refB[d], full, crashed(seqB, d))
+			check("keyspaceA", "A", txnApply(sa, rfull, "A", 99), refA[d+1], rfull, crashed(seqA, d))
+			check("keyspaceB", "B", txnApply(sb, rfull, "B", 99), refB[d+1], rfull, crashed(seqB, d))
+			check("v1-shared", "V", txnApply(sv, boundV1(full), "V", 99), refV[d], full, crashed(seqV, d))
 			opsRun.Add(5)
 			dsamples.Add(func() any {
 				var os []string
